@@ -321,6 +321,28 @@ def eqConcat : List Bytes → Bytes → Bool
     | some rest => eqConcat cs rest
     | none => false
 
+/-- do the two lists of chunks have the same concatenation? (neither is built) -/
+def eqConcat2 : Nat → List Bytes → List Bytes → Bool
+  | 0, _, _ => false
+  | _ + 1, [], r => r.all List.isEmpty
+  | _ + 1, l, [] => l.all List.isEmpty
+  | fuel + 1, [] :: l, r => eqConcat2 fuel l r
+  | fuel + 1, l, [] :: r => eqConcat2 fuel l r
+  | fuel + 1, (x :: xs) :: l, (y :: ys) :: r =>
+    -- strip the common prefix of the two head chunks
+    let rec strip : Bytes → Bytes → Option (Bytes × Bytes)
+      | [], w => some ([], w)
+      | v, [] => some (v, [])
+      | a :: as, b :: bs => if a == b then strip as bs else none
+    match strip (x :: xs) (y :: ys) with
+    | some (a, b) => eqConcat2 fuel (a :: l) (b :: r)
+    | none => false
+
+/-- `chunks` concatenate to the spec framing of `fps` (`Spec.Framing.frames fps` is not built: a
+16 MiB payload would be copied once per frame that follows it) -/
+def eqFrames (chunks : List Bytes) (fps : List (UInt8 × Bytes)) : Bool :=
+  eqConcat2 (2 * (chunks.length + fps.length) + 4) chunks (fps.map (fun fp => Spec.Framing.frame fp.1 fp.2))
+
 /-! ### Batching (rev1-FA3)
 
 C01 says the bytes do not depend on how output is batched, so where the chunk boundaries fall is
@@ -356,13 +378,11 @@ consecutive ready items (nothing is held back across a `Pending` or an error of 
 it ends either because the source had nothing more to give right then (`Pending`, end, error, a
 refused item) or because it reached the yield threshold — not having exceeded it before its last
 frame. -/
-def batchingOk (c : EncCase) (obs : List String) : Bool :=
-  let chunks := obsData (obs.filter (fun t => tokKind t ≠ 'E' && tokKind t ≠ 'H'))
+def batchingOkSplit (c : EncCase) (chunks : List (Bytes × List (UInt8 × Bytes) × Bytes)) : Bool :=
   let isGood : SrcEv EMsg → Bool := fun | .item m => !refusedItem c m | _ => false
-  let rec go : List Bytes → List (SrcEv EMsg) → Bool
+  let rec go : List (Bytes × List (UInt8 × Bytes) × Bytes) → List (SrcEv EMsg) → Bool
     | [], _ => true
-    | ch :: rest, evs =>
-      let (frs, left) := Spec.Framing.split ch
+    | (ch, frs, left) :: rest, evs =>
       let k := frs.length
       let evs := evs.dropWhile (fun e => !isGood e)
       let lastLen := match frs.getLast? with | some fp => 5 + fp.2.length | none => 0
@@ -372,6 +392,12 @@ def batchingOk (c : EncCase) (obs : List String) : Bool :=
         (match (evs.drop k).head? with | none => true | some e => !isGood e)) &&
       go rest (evs.drop k)
   go chunks c.evs
+
+/-- the observed data chunks, each with its split into frames by the independent parser -/
+def splitChunks (obs : List String) : List (Bytes × List (UInt8 × Bytes) × Bytes) :=
+  (obsData (obs.filter (fun t => tokKind t ≠ 'E' && tokKind t ≠ 'H'))).map (fun ch => (ch, Spec.Framing.split ch))
+
+def batchingOk (c : EncCase) (obs : List String) : Bool := batchingOkSplit c (splitChunks obs)
 
 /-- the model column for an encoder case -/
 def encColumn (c : EncCase) (obs : List String) : String :=
